@@ -234,20 +234,35 @@ def _sig_atoms(e):
     return sorted(out)
 
 
-def scope(F, prop_record):
-    """Functions a property names: defined in one of its anchor files and mentioned (by method or Type::method name) in its mechanism list."""
+def scope(F, prop_record, depth=2):
+    """Functions a property names: defined in one of its anchor files and mentioned (by method or Type::method name) in its
+    mechanism list, plus the functions of the anchor files they call (transitively, `depth` levels) and the closures inside those."""
     files = set(prop_record["anchors"]["files"])
     text = " ".join(m["name"] for m in prop_record["anchors"]["mechanism"])
     words = set(re.findall(r"[A-Za-z_][A-Za-z0-9_]*", text))
-    out = []
-    for k, fn in F.fns.items():
-        f = fn["span"]["file"]
-        if f not in files:
-            continue
+    in_files = {k for k, fn in F.fns.items() if fn["span"]["file"] in files}
+    named = set()
+    for k in in_files:
         base = re.sub(r"(::\{closure#\d+\})+$", "", k)
         m = re.sub(r"^.*::", "", re.sub(r"<[^<>]*>", "", base))
         if m in words and len(m) > 3:
-            out.append(k)
+            named.add(k)
+    out = set(named)
+    frontier = set(named)
+    for _ in range(depth):
+        nxt = set()
+        for k in frontier:
+            for bi, t in F.calls(k):
+                for n in callees_poly(F, t):
+                    if n in in_files and n not in out:
+                        nxt.add(n)
+        out |= nxt
+        frontier = nxt
+    # closures of everything in scope
+    for k in in_files:
+        base = re.sub(r"(::\{closure#\d+\})+$", "", k)
+        if base in out:
+            out.add(k)
     return sorted(out)
 
 
